@@ -1,4 +1,6 @@
-(* Correspondence + executable property oracle for C20 (consensus wrapper block lifecycle). *)
+(* Correspondence + executable property oracle for C20 (consensus wrapper block lifecycle), including
+   verification with a P-Chain block context (VerifyWithContext / BuildBlockWithContext): the engine
+   calls of a case are context-aware ops [cop] (Model/Snow.v, last section). *)
 From Coq Require Import List NArith Bool.
 Import ListNotations.
 From HV Require Import Lib.Harness Model.Snow.
@@ -8,7 +10,7 @@ Record case := mk {
   k_cfg : cfg;
   k_Q : N;                                (* bound on accepted-but-unprocessed blocks used by the walk *)
   k_init : list event;                    (* callbacks observed during VM.Initialize *)
-  k_ops : list op;                        (* engine calls *)
+  k_ops : list cop;                       (* engine calls (COp o = a call without context) *)
   k_obs : list (res * list event);        (* what the implementation answered / which callbacks it made *)
   k_built_clause : bool                   (* this case checks only the built-block clause (F-21) *)
 }.
@@ -54,19 +56,30 @@ Definition eqb_obs (a b : res * list event) : bool :=
 (* model = implementation, op by op; and the walk obeys the engine contract *)
 Definition check_case (c : case) : bool :=
   eqb_list eqb_event (init_events (k_cfg c)) (k_init c)
-  && eqb_list eqb_obs (run_obs (k_cfg c) (init_state (k_cfg c)) (k_ops c)) (k_obs c)
-  && engine_ok (k_cfg c) (k_Q c) (k_ops c).
+  && eqb_list eqb_obs (crun_obs (k_cfg c) (init_cstate (k_cfg c)) (k_ops c)) (k_obs c)
+  && cengine_ok (k_cfg c) (k_Q c) (k_ops c).
 
-(* the property itself (lifecycle_b, lookups_ok, built_clause_b) is defined next to the engine contract in
-   Model/Snow.v so that the theorems in Props/C20.v and this oracle are literally the same predicate *)
+(* the property itself (lifecycle_b, lookups_ok, notifs_ok, ctxs_ok, built_clause_b) is defined next to the
+   engine contract in Model/Snow.v so that the theorems in Props/C20.v and this oracle are literally the same
+   predicates.  The engine's bookkeeping only looks at the context-free call [base co] and at the answers:
+     lifecycle_b   whole-trace lifecycle + notification lists = decision lists (C20_lifecycle_ctx_exec)
+     lookups_ok    lookups answer from the accepted chain / processing set   (C20_lookup_ctx)
+     notifs_ok     call by call: the verified / rejected notifications made during a call are exactly the
+                   decisions the engine records for that call - none for a call that returned an
+                   error, e.g. a Verify refused for its context                (C20_notifications_ctx)
+     ctxs_ok       a verify call whose context differs from the block's inner context is refused without
+                   any callback, a matching one is never refused for its context (C20_ctx_check) *)
 Definition spec_ok (c : case) : bool :=
-  c_ready (k_cfg c) && no_sync (k_ops c) &&
-  match erun_obs (k_Q c) (init_estate (k_cfg c)) (k_ops c) (k_obs c) with
+  let ops := map base (k_ops c) in
+  c_ready (k_cfg c) && no_sync ops &&
+  match erun_obs (k_Q c) (init_estate (k_cfg c)) ops (k_obs c) with
   | None => false
   | Some es =>
     let tr := k_init c ++ concat (map snd (k_obs c)) in
     if k_built_clause c then built_clause_b tr es
-    else lifecycle_b tr es && lookups_ok (k_Q c) (init_estate (k_cfg c)) (k_ops c) (k_obs c)
+    else lifecycle_b tr es && lookups_ok (k_Q c) (init_estate (k_cfg c)) ops (k_obs c)
+         && notifs_ok (init_estate (k_cfg c)) ops (k_obs c)
+         && ctxs_ok (init_estate (k_cfg c)) [] (k_ops c) (k_obs c)
   end.
 
 (* debugging aid: index of the first op on which model and implementation differ *)
